@@ -326,14 +326,22 @@ func (g *G) AbstractChange(kind string) *Change {
 }
 
 func (g *G) abstractOnce(kind string) *Change {
+	return g.AbstractFrom(kind, "")
+}
+
+// AbstractFrom abstracts the given code fragment (or, when given is empty, a generated one)
+// into a change. It returns nil when the fragment is not usable.
+func (g *G) AbstractFrom(kind, given string) *Change {
 	g.Pattern = true
 	saveC := g.Comment
 	g.Comment = false
 	var text string
-	switch kind {
-	case "expr":
+	switch {
+	case given != "":
+		text = given
+	case kind == "expr":
 		text = g.Expr(3, nil)
-	case "stmts":
+	case kind == "stmts":
 		n := 1 + g.R.Intn(3)
 		var parts []string
 		for i := 0; i < n; i++ {
@@ -617,6 +625,9 @@ func (g *G) abstractOnce(kind string) *Change {
 		return nil
 	}
 	c := &Change{Kind: kind, Schema: "abstract-" + kind, Meta: metas, OrigFill: orig}
+	if given != "" {
+		c.Schema = "abstract-corpus-" + kind
+	}
 	ml, pl := strings.Split(minusText, "\n"), strings.Split(plusText, "\n")
 	// common prefix / suffix lines become context lines
 	pre := 0
@@ -651,4 +662,90 @@ func (g *G) abstractOnce(kind string) *Change {
 		return nil
 	}
 	return c
+}
+
+// CorpusFragment picks a random fragment of the given kind out of real source code: an
+// expression of moderate size, one to three consecutive statements of a block, or a small
+// declaration. It returns "" when the file offers none.
+func (g *G) CorpusFragment(kind string, src []byte) string {
+	fs := token.NewFileSet()
+	f, err := parser.ParseFile(fs, "c.go", src, parser.SkipObjectResolution)
+	if err != nil {
+		return ""
+	}
+	tf := fs.File(f.Pos())
+	span := func(a, b token.Pos) string {
+		if !a.IsValid() || !b.IsValid() {
+			return ""
+		}
+		return string(src[tf.Offset(a):tf.Offset(b)])
+	}
+	var cands []string
+	switch kind {
+	case "expr":
+		ast.Inspect(f, func(n ast.Node) bool {
+			switch n.(type) {
+			case *ast.CallExpr, *ast.BinaryExpr, *ast.CompositeLit, *ast.IndexExpr, *ast.SelectorExpr, *ast.UnaryExpr, *ast.SliceExpr, *ast.TypeAssertExpr, *ast.StarExpr:
+				t := span(n.Pos(), n.End())
+				if len(t) >= 8 && len(t) <= 160 && !strings.Contains(t, "\n") {
+					cands = append(cands, t)
+				}
+			}
+			return true
+		})
+	case "stmts":
+		ast.Inspect(f, func(n ast.Node) bool {
+			var list []ast.Stmt
+			switch b := n.(type) {
+			case *ast.BlockStmt:
+				list = b.List
+			case *ast.CaseClause:
+				list = b.Body
+			}
+			for i := range list {
+				for k := 1; k <= 3 && i+k <= len(list); k++ {
+					t := span(list[i].Pos(), list[i+k-1].End())
+					if len(t) >= 8 && len(t) <= 400 && strings.Count(t, "\n") <= 12 {
+						cands = append(cands, t)
+					}
+				}
+			}
+			return true
+		})
+	default:
+		for _, d := range f.Decls {
+			if gd, ok := d.(*ast.GenDecl); ok && gd.Tok == token.IMPORT {
+				continue
+			}
+			t := span(d.Pos(), d.End())
+			if len(t) >= 8 && len(t) <= 500 && strings.Count(t, "\n") <= 15 {
+				cands = append(cands, t)
+			}
+		}
+	}
+	if len(cands) == 0 {
+		return ""
+	}
+	t := cands[g.R.Intn(len(cands))]
+	if kind == "stmts" {
+		// drop the common indentation
+		ls := strings.Split(t, "\n")
+		min := -1
+		for _, l := range ls[1:] {
+			if strings.TrimSpace(l) == "" {
+				continue
+			}
+			n := len(l) - len(strings.TrimLeft(l, "\t"))
+			if min < 0 || n < min {
+				min = n
+			}
+		}
+		for i := 1; i < len(ls) && min > 0; i++ {
+			if len(ls[i]) >= min {
+				ls[i] = ls[i][min:]
+			}
+		}
+		t = strings.Join(ls, "\n")
+	}
+	return t
 }
